@@ -38,6 +38,8 @@ class Server:
         h = req.get('hash') or gen.rnd_imprint(rng, 1)
         if b == 'other-hash':
             h = gen.rnd_imprint(rng, h[0]) if rng.random() < 0.5 else h[:-1] + bytes([h[-1] ^ 1])
+            if getattr(self, 'force_other', None):
+                h = self.force_other          # the hash the caller's verification context still holds from an earlier use
         LL = L
         if b == 'other-level':
             LL = L + rng.choice([1, 2]) if L < 200 else L - 1
@@ -211,9 +213,22 @@ def run_worker(job, r):
             h = gen.rnd_imprint(rng, 0)       # SHA-1: deprecated, the blocking interface must refuse before sending
             untrusted = True
         nreq0 = len(sess.http) + len(sess.tcp_order)
+        srv.force_other = None
         if not transport.startswith('async'):
-            q = cmd('sign 0 0 %s lvl=%d' % (h.hex(), L))
+            ctxdoc = ''
+            if rng.random() < 0.3:
+                # KSI_Signature_signAggregatedWithPolicy with a caller context used before: empty, or still holding another document hash
+                # (the one an 'other-hash' aggregator answers for)
+                if rng.random() < 0.25:
+                    ctxdoc = ' ctxdoc=-'
+                else:
+                    srv.force_other = gen.rnd_imprint(rng, ha) if rng.random() < 0.7 else h[:-1] + bytes([h[-1] ^ 1])
+                    ctxdoc = ' ctxdoc=' + srv.force_other.hex()
+                r.count('sign_with_policy_and_used_context')
+            q = cmd('sign 0 0 %s lvl=%d%s' % (h.hex(), L, ctxdoc))
             rc, sig = q.rc, q.get('sig')
+            if q.get('vcdirty'):
+                r.count('caller_context_modified_by_sign_with_policy')      # observed, not judged
         else:
             tag = 't%d' % i
             a = cmd('async_add 0 0 sign %s %d %s' % (h.hex(), L, tag))
